@@ -1436,6 +1436,26 @@ STR_PREDICATES = ('isidentifier', 'isalnum', 'isalpha', 'isascii', 'isdigit', 'i
                   'iskeyword', 'issoftkeyword', 'fullmatch', 'match', 'encode')
 
 
+def rule_V_CODEOBJ(ctx, repo):
+    """V-TARGET (the argument spec comes from inspect, not from the code object): `func.__code__.co_varnames[:co_argcount]` with `__defaults__` is what
+    getfullargspec reports for a plain function - but not for a callable that carries a `__signature__` (signature-preserving decorators: a
+    `(*args, **kwargs)` wrapper that advertises the wrapped function's parameters).  A fast path over the code object sees no named parameter there: names
+    and indices of the ignore specification can no longer be cross-referenced, so an ignored argument passed the other way enters the key."""
+    m = repo.mod('_inspect')
+    fi = m.functions.get('signature')
+    if fi is None:
+        raise AnalysisError('anchor vanished: klepto/_inspect.py::signature')
+    reach = [fi.node] + [m.functions[c.func.id].node for c in ast.walk(fi.node) if isinstance(c, ast.Call) and isinstance(c.func, ast.Name) and c.func.id in m.functions
+                         and c.func.id not in ('signature', 'validate')]
+    hits = [y for r_ in reach for y in ast.walk(r_) if isinstance(y, ast.Attribute) and y.attr in ('__code__', 'co_varnames', 'co_argcount', 'co_kwonlyargcount', 'func_code')]
+    ctx.ob('V-TARGET', 'signature() does not read parameter names off the code object', not hits)
+    for y in hits[:1]:
+        ctx.fail('V-TARGET', fi.qual, 'argument names taken from %s' % y.attr,
+                 'signature() reads the parameters from the code object (`%s`): a callable whose advertised signature differs from its code - a functools.wraps-style '
+                 '(*args, **kwargs) wrapper with `__signature__` set - is then seen without named parameters, where inspect.getfullargspec honours __signature__: '
+                 'name- and index-based ignore entries stop matching and ignored arguments change the key' % unparse(y)[:40], '%s:%d' % (m.rel, y.lineno))
+
+
 def rule_V_NAMESHAPE(ctx, repo):
     """V-NAMES (keyword names are opaque).  Python binds f(**{'content-type': 1}) to a function with **kwds without looking at the spelling of the name: only
     membership in the parameter list matters.  validate() therefore compares names (in / not in / ==) and never judges their spelling: a predicate on the text
